@@ -27,7 +27,11 @@ class Tokenizer:
         '@variables': CSSProductions.VARIABLES_SYM,
     }
     _linesep = '\n'
-    unicodesub = re.compile(r'\\[0-9a-fA-F]{1,6}(?:\r\n|[\t\r\n\f\x20])?').sub
+    # a hex escape, or any other escaped character (kept as it is, so that the
+    # second backslash of an escaped backslash never starts a new escape)
+    unicodesub = re.compile(
+        r'\\(?:[0-9a-fA-F]{1,6}(?:\r\n|[\t\r\n\f\x20])?|[^0-9a-fA-F])'
+    ).sub
     cleanstring = re.compile(r'\\((\r\n)|[\n\r\f])').sub
 
     def __init__(self, macros=None, productions=None, doComments=True):
@@ -110,6 +114,8 @@ class Tokenizer:
 
         def _repl(m):
             "used by unicodesub"
+            if m.group(0)[1] not in '0123456789abcdefABCDEF':
+                return m.group(0)
             num = int(m.group(0)[1:], 16)
             if num <= sys.maxunicode:
                 return chr(num)
@@ -214,10 +220,12 @@ class Tokenizer:
                         ):
                             # may contain unicode escape, replace with normal
                             # char but do not _normalize (?)
-                            value = self.unicodesub(_repl, found)
+                            value = found
                             if name in ('STRING', 'INVALID'):  # 'URI'?
-                                # remove \ followed by nl (so escaped) from string
+                                # remove \ followed by nl (so escaped) from string,
+                                # before a hex escape can produce a new nl
                                 value = self.cleanstring('', value)
+                            value = self.unicodesub(_repl, value)
 
                         else:
                             if 'ATKEYWORD' == name:
